@@ -1245,10 +1245,11 @@ func (t *tree) expect(expected itemType, context string) item {
 
 // unexpected complains about the token and terminates processing.
 func (t *tree) unexpected(token item, context string) {
+	// report the position of the offending token, not that of the current one:
+	// a token of look-ahead may have been read since (once the lexer has
+	// stopped, that is a zero token at 0:0).
+	t.token[0], t.peekCount = token, 0
 	if token.typ == itemError {
-		// report the position where the lexer failed, not that of the current
-		// token (which, once the lexer has stopped, is a zero token at 0:0).
-		t.token[0], t.peekCount = token, 0
 		t.errorf("lexical error: %v", token)
 	}
 	t.errorf("unexpected %v in %s", token, context)
